@@ -124,7 +124,9 @@ class RequirementUnion(HostRequirement):
 
             if match := req.match(host):
                 if match.score > max_score:
-                    argmax = MatchRequirement(match.score, req)
+                    # (the matched simple requirement, also when the
+                    # alternative is itself a union)
+                    argmax = MatchRequirement(match.score, match.requirement)
 
         return argmax
 
